@@ -113,6 +113,8 @@ func makeCase(workload string, idx int) (c caseCfg, m caseMeta) {
 	default:
 		if r.Chance(1, 3) {
 			c.Script, m.Name = genStream(r), "stream"
+		} else if r.Chance(1, 4) {
+			c.Script, m.Name = genTail(r), "truncated-tail"
 		} else {
 			c.Script, m.Name = genRaw(r), "raw"
 		}
@@ -152,8 +154,12 @@ type childResult struct {
 	Watchdog   int // index of a case the in-process watchdog gave up on (-1 none)
 }
 
-func disasm(script []byte, maxIns int) []string {
-	var out []string
+func disasm(script []byte, maxIns int) (out []string) {
+	defer func() {
+		if x := recover(); x != nil {
+			out = append(out, fmt.Sprintf("<decoder panic: %v>", x))
+		}
+	}()
 	ctx := scparser.NewContext(script, 0)
 	for ctx.NextIP() < len(script) && len(out) < maxIns {
 		ip := ctx.NextIP()
@@ -231,7 +237,7 @@ func childMain(t *testing.T, specPath string) {
 		t.Fatalf("child: bad spec %s: %v", specPath, err)
 	}
 	// hard cap on the address space: an allocation storm kills this child only.
-	lim := uint64(10 << 30)
+	lim := uint64(5 << 30)
 	_ = syscall.Setrlimit(syscall.RLIMIT_AS, &syscall.Rlimit{Cur: lim, Max: lim})
 
 	res := &childResult{Obs: map[string]int64{}, Max: map[string]int64{}, Sigs: map[string]int64{}, Next: spec.Lo, Watchdog: -1}
@@ -282,6 +288,9 @@ func childMain(t *testing.T, specPath string) {
 			res.Obs["scripts_with_cycle_built"]++
 		}
 		res.Obs["steps_counter_above_walk_with_cycle"] += int64(o.OverCount)
+		if o.StaticPanic {
+			res.Obs["static_check_panicked"]++
+		}
 		if o.Correct {
 			res.Obs["static_check_accepted"]++
 			res.Obs["executed_offsets_checked"] += int64(o.OffChecked)
@@ -371,7 +380,7 @@ func childMain(t *testing.T, specPath string) {
 // ------------------------------------------------------------------ parent side
 
 var crashHead = regexp.MustCompile(`(?m)^(panic: .*|fatal error: .*|runtime: .*out of memory.*)$`)
-var crashFrame = regexp.MustCompile(`(?m)^(github\.com/[^\s(]+)\(`)
+var crashFrame = regexp.MustCompile(`(?m)^(github\.com/\S+)\([^()]*\)$`)
 
 func crashSignature(log string) (sig string, inRepo bool) {
 	m := crashHead.FindStringIndex(log)
@@ -418,13 +427,13 @@ func TestCheck(t *testing.T) {
 	defer run.Finish()
 	run.Assume("exported getters (Istack, Estack, Context.*Slot, stackitem Value()) expose the real VM state; the item counter and try depth are read through the verif-tagged hooks VerifRefs / VerifTryDepth")
 	run.Assume("interop-free scripts on a bare vm.VM: SYSCALL / CALLT fault (exercised by C04/C16); one script per VM")
-	run.Assume("a Go panic is recovered in-process and reported; a process-fatal error (stack exhaustion, OOM under the 10 GiB address-space cap) kills only the child and is attributed through the case file written before execution")
+	run.Assume("a Go panic is recovered in-process and reported; a process-fatal error (stack exhaustion, OOM under the 5 GiB address-space cap) kills only the child and is attributed through the case file written before execution")
 	run.Assume("the item being thrown while a finally block runs is held outside stacks and slots and is not part of the walk (nor of the VM counter)")
 	run.Assume("the executed-offset clause is evaluated on scripts accepted by scparser.IsScriptCorrect(script, nil); boundaries come from an independent linear decode plus the implicit RET at len(script)")
 
-	nTyped := ev.Pick(230000, 5200000)
-	nMut := ev.Pick(100000, 2400000)
-	nRaw := ev.Pick(70000, 1600000)
+	nTyped := ev.Pick(200000, 3000000)
+	nMut := ev.Pick(150000, 5000000)
+	nRaw := ev.Pick(100000, 4000000)
 	if v := os.Getenv("C12_SCALE"); v != "" { // manual experiments only
 		if f, err := strconv.ParseFloat(v, 64); err == nil {
 			nTyped, nMut, nRaw = int(float64(nTyped)*f), int(float64(nMut)*f), int(float64(nRaw)*f)
@@ -483,6 +492,7 @@ func TestCheck(t *testing.T) {
 	var mu sync.Mutex
 	sigs := map[string]int64{}
 	var trivial int64
+	samples := map[string][]any{}
 	var ops [256]int64
 	var next atomic.Int64
 	var wg sync.WaitGroup
@@ -504,7 +514,13 @@ func TestCheck(t *testing.T) {
 			ops[i] += n
 		}
 		for _, s := range r.Samples {
-			run.Sample(s)
+			if m, ok := s.(map[string]any); ok {
+				w, _ := m["case_id"].(string)
+				w = w[:strings.Index(w+":", ":")]
+				if len(samples[w]) < 2 {
+					samples[w] = append(samples[w], s)
+				}
+			}
 		}
 		for _, v := range r.Violations {
 			run.Violation(v.Sig, v.CaseID, v.Detail, v.Witness)
@@ -534,7 +550,7 @@ func TestCheck(t *testing.T) {
 				return
 			}
 			cmd := exec.Command(bin, "-test.run", "^TestCheck$", "-test.timeout", "0")
-			cmd.Env = append(os.Environ(), "C12_CHILD="+sp, "GOMEMLIMIT=2GiB", "GOMAXPROCS=2", "GOTRACEBACK=all", "GOGC=100")
+			cmd.Env = append(os.Environ(), "C12_CHILD="+sp, "GOMEMLIMIT=2GiB", "GOMAXPROCS=2", "GOTRACEBACK=all", "GOGC=400")
 			cmd.Stdout, cmd.Stderr = lf, lf
 			cmd.Dir = dir
 			if err := cmd.Start(); err != nil {
@@ -647,6 +663,11 @@ func TestCheck(t *testing.T) {
 	}
 	wg.Wait()
 
+	for _, w := range []string{wlTyped, wlMut, wlRaw} {
+		for _, s := range samples[w] {
+			run.Sample(s)
+		}
+	}
 	for s, n := range sigs {
 		run.CaseN(s, true, n)
 	}
